@@ -118,7 +118,13 @@ def generate(rng, tier):
                        "loglevel": rng.choice(["WARNING", "WARNING", "DEBUG",
                                                "INFO"]) if cfg["perturb"] else "WARNING",
                        "gc": rng.random() < 0.1},
-               "pristine": pristine_all or rng.random() < p_pristine}
+               # class- or module-level state is invisible to the in-process
+               # reference (same interpreter): point evaluations, where such
+               # state has been met (mutant probes-caches-finder-per-class),
+               # are compared in the pristine interpreter more often
+               "pristine": pristine_all or rng.random() < (
+                   0.5 if name in ("basis_point", "mesh_finder")
+                   else p_pristine)}
         if op.out is not None:
             rec["out"] = S.new(op.out, op.meta(a, S))
         for cname in getattr(op, "consumes", ()):
